@@ -111,11 +111,45 @@ def stdlib_names():
 ALLOWED_TOP = set()
 
 
+CALLS = []
+GUARDED_BUILTINS = ("exit", "quit", "breakpoint", "input", "help", "license", "copyright", "credits")
+
+
+def plant_canaries():
+    """callables reachable by bare name from anywhere (`builtins`): two canaries of our own, and recording stand-ins for the
+    interactive builtins no analysis has a reason to call (installed only while a monitored call runs)"""
+    import builtins
+
+    def canary_call(*a, **k):
+        CALLS.append("canary_call")
+        return 0
+
+    class CanaryType(object):
+        def __init__(self, *a, **k):
+            CALLS.append("CanaryType")
+
+    builtins.canary_call = canary_call
+    builtins.CanaryType = CanaryType
+
+
+def _stand_in(name):
+    def recorded(*a, **k):
+        CALLS.append(name)
+    recorded.__name__ = name
+    return recorded
+
+
 def armed_call(fn, allowed_writes=(), analysed=()):
     ARMED["events"] = []
     ARMED["exec_seen"] = 0
     ARMED["allowed_writes"] = tuple(os.path.realpath(p) for p in allowed_writes)
+    import builtins
+
     loaded_before = set(sys.modules)
+    del CALLS[:]
+    saved = {n: getattr(builtins, n) for n in GUARDED_BUILTINS if hasattr(builtins, n)}
+    for n in saved:
+        setattr(builtins, n, _stand_in(n))
     ARMED["on"] = True
     try:
         try:
@@ -125,6 +159,10 @@ def armed_call(fn, allowed_writes=(), analysed=()):
             outcome = "raised:" + type(e).__name__
     finally:
         ARMED["on"] = False
+        for n, v in saved.items():
+            setattr(builtins, n, v)
+    for name in CALLS:
+        ARMED["events"].append({"event": "builtin-called", "name": name})
     # importlib.import_module() raises no "import" audit event: what the call left in sys.modules is compared as well
     for name in sorted(set(sys.modules) - loaded_before):
         if name.split(".")[0] not in ALLOWED_TOP:
@@ -142,6 +180,7 @@ def main():
     seed, first, count, scratch = sys.argv[1], int(sys.argv[2]), int(sys.argv[3]), sys.argv[4]
     c17_cases.preload()
     ALLOWED_TOP = stdlib_names()
+    plant_canaries()
     sys.addaudithook(hook)
     os.chdir(scratch)
     sys.path.insert(0, scratch)  # the canary module really is importable
